@@ -371,7 +371,8 @@ def r3_strings(ck, prog, run):
         ck.same("R4", fi.where, "; ".join(norm(c_) for c_ in calls) or "split at '.'", "decimal strings are split with partition('.'): without a point every digit stays in the integer part",
                 bool(calls) and all(c_.func.attr == "partition" for c_ in calls), found=str([norm(c_) for c_ in calls]), nontrivial=True)
     # from_string: real strings -> real Phase (also with a zero part); j strings -> imaginary Phase
-    groups = [(["0.5"], False), (["0.0"], False), (["5"], False), (["-12.25", "3."], False), (["1.5j"], True), (["0.5j", "5j"], True), (["0j"], None)]
+    groups = [(["0.5"], False), (["0.0"], False), (["5"], False), (["-12.25", "3."], False), (["1.5j"], True), (["0.5j", "5j"], True), (["0j"], None),
+              (["5j"], True), (["-12.000j", "+3E2j"], True), (["0.25j"], True), (["-7"], False)]
     for strs, want_imag in groups:
         log = PhaseLog()
 
